@@ -8,6 +8,7 @@ Line-protocol driver (core-only, compiled).  One request line
 import GeomVerif.Driver.C01
 import GeomVerif.Driver.C02
 import GeomVerif.Driver.C08
+import GeomVerif.Driver.C09
 
 open GeomVerif GeomVerif.Wire
 
@@ -15,6 +16,7 @@ def dispatch (op : String) (inp go : Sexp) : Option Reply :=
   if op.startsWith "C01." then Driver.C01.handle op inp go
   else if op.startsWith "C02." then Driver.C02.handle op inp go
   else if op.startsWith "C08." then Driver.C08.handle op inp go
+  else if op.startsWith "C09." then Driver.C09.handle op inp go
   else none
 
 def handleLine (line : String) : String :=
